@@ -75,6 +75,11 @@ func init() {
 		ergoPath + ".zzHavoc":   mHavoc,
 		ergoPath + ".zzBytes":   mNondetBytes,
 		ergoPath + ".zzNote":    func(ex *Exec, c *callCtx) Value { return nil },
+		ergoPath + ".zzReplayFrom": mReplayFrom,
+		ergoPath + ".deriveTitleAndBodyFromLegacy": func(ex *Exec, c *callCtx) Value {
+			b := c.args[0].(StrV)
+			return TupleV{E: []Value{StrV{T: UF("legacytitle", SInt, b.T)}, StrV{T: UF("legacybody", SInt, b.T)}}}
+		},
 		ergoPath + ".shortID":   mShortID,
 		ergoPath + ".newUUID":   mNewUUID,
 		ergoPath + ".debugf":    func(ex *Exec, c *callCtx) Value { return nil },
@@ -858,4 +863,40 @@ func (ex *Exec) havocBox(name string) Value {
 	ex.nondets = append(ex.nondets, &NondetVar{name + ".malformed", "bool", m})
 	b.Malformed = m
 	return Ref1(BoxT{B: b})
+}
+
+// zzReplayFrom(g, events): the real replayEvents, entered with its freshly allocated graph
+// replaced by the (symbolic) pre-state g right after the entry block -- i.e. the real replay
+// loop body and post-processing run from an arbitrary head state (DESIGN 2.5).
+func mReplayFrom(ex *Exec, c *callCtx) Value {
+	fn := ex.pkg.Func("replayEvents")
+	if fn == nil {
+		panic(unsupported("replayEvents not found"))
+	}
+	g := c.args[0].(RefV)
+	if len(g.Alts) != 1 {
+		panic(unsupported("zzReplayFrom: pre-state must be a single object"))
+	}
+	src := g.Alts[0].Tgt.(AddrT)
+	if ex.entryHooks == nil {
+		ex.entryHooks = map[*ssa.Function]func(fr *Frame){}
+	}
+	ex.entryHooks[fn] = func(fr *Frame) {
+		for _, ins := range fn.Blocks[0].Instrs {
+			al, ok := ins.(*ssa.Alloc)
+			if !ok {
+				continue
+			}
+			if n, ok := al.Type().(*types.Pointer).Elem().(*types.Named); ok && n.Obj().Name() == "Graph" {
+				dst := fr.regs[al].(RefV).Alts[0].Tgt.(AddrT)
+				dst.Obj.val = getPath(src.Obj.val, src.P)
+				return
+			}
+		}
+		panic(unsupported("zzReplayFrom: no Graph allocation in replayEvents' entry block"))
+	}
+	saved := c.fr.guard
+	res := ex.callFunction(fn, []Value{c.args[1]}, nil, c.guard, c.pos)
+	c.fr.guard = saved
+	return res
 }
